@@ -1,4 +1,4 @@
-"""C05.R8 - a layer rule reads the architecture, it never writes into it.
+"""C05.R1.READONLY - a layer rule reads the architecture, it never writes into it.
 
 `LayeredArchitecture` keeps one list of module filters per layer; `LayeredArchitecture.__getitem__`, the `LayerMapping` served by
 `layer_mapping` (`get_module_filters`) hand those very lists out.  A rule is judged against "the layers as defined"
@@ -251,7 +251,7 @@ def check_architecture_untouched(repo: Repo, res: Result) -> None:
     construct = f"{arch.module.relpath}::LayeredArchitecture::layer lists are only read by rules"
     sites, carriers = mutation_sites(repo)
     for fi, n, what, _tag in sites:
-        res.add("C05.R8", repo.key(fi, stmt_of(n)) + " [writes into the architecture]", False, what + ": the layers a rule is judged against are no longer the layers as defined (a module listed in two layers goes to the one defined later; later rules on the same architecture see the change)", where(fi, n), kind="flow")
+        res.add("C05.R1.READONLY", repo.key(fi, stmt_of(n)) + " [writes into the architecture]", False, what + ": the layers a rule is judged against are no longer the layers as defined (a module listed in two layers goes to the one defined later; later rules on the same architecture see the change)", where(fi, n), kind="flow")
     if not sites:
-        res.add("C05.R8", construct, True, f"the per-layer lists of the architecture reach {carriers} expression(s) outside LayeredArchitecture; none of them is the receiver of an in-place mutation", kind="flow")
+        res.add("C05.R1.READONLY", construct, True, f"the per-layer lists of the architecture reach {carriers} expression(s) outside LayeredArchitecture; none of them is the receiver of an in-place mutation", kind="flow")
     res.analysed["architecture_list_carriers"] = carriers
